@@ -266,7 +266,7 @@ def run_chunks(binary, cases, k=12, timeout=180, cwd=None, max_culprits=4):
             bad = rest[len(outs)]
             culprits.append((bad, (f"no answer within {timeout} s (hang / deadlock)" if timed else f"the harness process died (exit {rc}) {err.strip()[-200:]}")))
             rest = rest[len(outs) + 1:]
-            if len(culprits) >= max_culprits: fatal = f"{binary}: more than {max_culprits} cases hang or crash in one chunk"; break
+            if len(culprits) >= max_culprits: break      # enough evidence: the remaining cases of this chunk stay unanswered
         return impl, culprits, fatal
     chunks = [cases[i::k] for i in range(k)]
     with ThreadPoolExecutor(k) as ex: res = list(ex.map(run_one, chunks))
